@@ -14,6 +14,7 @@ import (
 	"fmt"
 	"go/ast"
 	"go/types"
+	"os"
 	"strings"
 
 	"golang.org/x/tools/go/packages"
@@ -90,6 +91,15 @@ func H_generate() {
 		return append([]byte("/*fmt*/"), src...), nil
 	})
 
+	// Generate must not look at the file system: any read of a path is recorded
+	var fsReads []string
+	vStub("io/ioutil.ReadFile", func(name string) ([]byte, error) { fsReads = append(fsReads, name); return nil, errors.New("no such file") })
+	vStub("os.ReadFile", func(name string) ([]byte, error) { fsReads = append(fsReads, name); return nil, errors.New("no such file") })
+	vStub("os.Open", func(name string) (*os.File, error) { fsReads = append(fsReads, name); return nil, errors.New("no such file") })
+	vStub("os.Stat", func(name string) (os.FileInfo, error) { fsReads = append(fsReads, name); return nil, errors.New("no such file") })
+	vStub("os.Lstat", func(name string) (os.FileInfo, error) { fsReads = append(fsReads, name); return nil, errors.New("no such file") })
+	vStub("io/ioutil.ReadDir", func(name string) ([]os.FileInfo, error) { fsReads = append(fsReads, name); return nil, errors.New("no such dir") })
+	vStub("os.ReadDir", func(name string) ([]os.DirEntry, error) { fsReads = append(fsReads, name); return nil, errors.New("no such dir") })
 	opts := &GenerateOptions{Tags: tags, PrefixOutputFile: prefix}
 	if withHeader {
 		opts.Header = []byte("// HEADER\n")
@@ -136,6 +146,7 @@ func H_generate() {
 		}
 	}
 	vA("C18", loadCalls == 1, "one load per Generate")
+	vA("C18", len(fsReads) == 0, "Generate does not read the file system (its result cannot depend on previous output)")
 }
 
 // H_load: the build flags given to go/packages.
